@@ -2,6 +2,7 @@
 * Unless explicitly stated otherwise all files in this repository are licensed under the Apache-2.0 License.
 * This product includes software developed at Datadog (https://www.datadoghq.com/). Copyright 2022 Datadog, Inc.
 **/
+use swc_common::Spanned;
 use swc_ecma_ast::*;
 use swc_ecma_visit::VisitMutWith;
 
@@ -28,11 +29,21 @@ impl AssignAddTransform {
             }
 
             AssignTarget::Simple(left_expr) => {
+                // `x += 1 + 2` means `x + (1 + 2)`: a sum on the right keeps its own grouping
+                let right = if matches!(&*assign.right, Expr::Bin(bin) if bin.op == BinaryOp::Add) {
+                    Box::new(Expr::Paren(ParenExpr {
+                        span: assign.right.span(),
+                        expr: assign.right.clone(),
+                    }))
+                } else {
+                    assign.right.clone()
+                };
+
                 let binary = Expr::Bin(BinExpr {
                     span,
                     op: BinaryOp::Add,
                     left: left_expr.clone().into(),
-                    right: assign.right.clone(),
+                    right,
                 });
 
                 let result = BinaryAddTransform::to_dd_binary_expr(
